@@ -1,4 +1,6 @@
-CONSTANTS NN = 2
+CONSTANTS FlawNoHopBound = FALSE
+ FlawStatelessHandle = FALSE
+ NN = 2
  MaxNodes = 4
  MaxDepth = 3
  QLen = 3
